@@ -6,7 +6,7 @@ package forwarder
 // C06: credentials are confined to the hop they belong to.
 //
 //vf:assume C06-match: credential tables = every subset of {h1:80, h1:8080, h2:80, *:80, h1:*, *:*} (6 entries, distinct users); targets: scheme http/https, host h1/h2/h3, port absent/80/443/8080
-//vf:assume C06-pipe: the real connection loop with a recording next hop; client Proxy-Authorization in 0..2 lines with symbolic 4-byte values, optionally nominated by Connection; upstream proxy given statically with or without userinfo, with or without a --credentials entry for the proxy host (URL userinfo wins when both exist), or selected by a PAC answer (scripted resolver) with or without such an entry; site credentials for the target
+//vf:assume C06-pipe: the real connection loop with a recording next hop; client Proxy-Authorization in 0..2 lines with symbolic 4-byte values, optionally nominated by Connection; optionally an upgrade request (Connection: Upgrade, Upgrade: websocket); upstream proxy given statically with or without userinfo, with or without a --credentials entry for the proxy host (URL userinfo wins when both exist), or selected by a PAC answer (scripted resolver) with or without such an entry; site credentials for the target
 //vf:assume C06: what http.Transport itself adds for plain HTTP via an upstream proxy (Proxy-Authorization from the proxy URL) is net/http code and outside; Kerberos is outside
 
 import (
@@ -149,6 +149,10 @@ func vfH_C06_pipe() {
 	}
 	if vfrt.Choice("nominated", 2) == 1 {
 		hdr += "Connection: Proxy-Authorization\r\n"
+	}
+	upgradeShaped := vfrt.Choice("upgrade-request", 2) == 1
+	if upgradeShaped {
+		hdr += "Connection: Upgrade\r\nUpgrade: websocket\r\n"
 	}
 	clientAuthz := vfrt.Choice("client-authorization", 2) == 1
 	if clientAuthz {
